@@ -265,6 +265,8 @@ func sanitize(s string) string {
 }
 
 const (
+	// lengths of strings and slices are assumed to stay below 2^62 (listed assumption)
+	maxLenStr   = "4611686018427387903"
 	maxInt64Str = "9223372036854775807"
 	minInt64Str = "-9223372036854775808"
 )
@@ -286,6 +288,8 @@ const Prelude = `(set-option :produce-models true)
 (assert (= (str_len str_empty) 0))
 (declare-fun birth (Int) Int)
 (assert (= (birth 0) (- 1)))
+(declare-fun perexec (Int) Bool)
+(assert (perexec 0))
 (declare-fun dyn_type (Int) Int)
 (assert (= (dyn_type 0) 0))
 (define-fun wrap64 ((x Int)) Int (ite (> x 9223372036854775807) (- x 18446744073709551616) (ite (< x (- 9223372036854775808)) (+ x 18446744073709551616) x)))
